@@ -8,6 +8,7 @@ VERIF = os.path.dirname(os.path.dirname(os.path.abspath(__file__)))
 ROUND = {"a": "round 1", "b": "round 2", "c": "round 3 (themes: history-dependent, configuration-dependent, two cooperating sites, numeric-type dependent)",
          "d": "round 4 (themes: history-, configuration-, numeric-type/range-, structure-dependent, untouched code region)",
          "e": "round 5 (theme: adversarial to randomised checking - rare coincidences, everyday values, order of steps, surviving state)",
+         "g": "round 7 (the change sits on top of a behaviour-preserving refactoring of the region, refactors/Rxx: patch.diff = refactoring + change; the agent saw the refactored tree and the harness description)",
          "f": "round 6 (two changes per agent; the agent was given a description of everything the harness does and asked to aim past it)"}
 dirs = sys.argv[1:] or sorted(d for d in glob.glob(os.path.join(VERIF, "seeded", "C*-*")) if not os.path.exists(os.path.join(d, "meta.json")))
 head = subprocess.run(["git", "-C", "/repo", "rev-parse", "--short", "HEAD"], capture_output=True, text=True).stdout.strip()
